@@ -76,5 +76,15 @@ def handle : List String → Option String
       let (hc, uc) := match p.inner with | some i => (i.hcalls, i.ucalls) | none => (0, 0)
       some s!"ok plain={toHex (plainOut p)} tcpclosed={p.tcpClosed} inner={p.inner.isSome} h={hc} u={uc}"
     | _, _ => some "bad-op"
+  | "pumpx" :: mw :: up :: hs :: evs =>
+    match parseHandler hs, evs.mapM parsePEv with
+    | some handler, some evs =>
+      let cfg : Cfg := { mw := mw == "1", upload := up == "1", handler, env := asciiEnv }
+      let p := pumpRun cfg evs
+      match p.inner with
+      | some i =>
+        some s!"ok {" ".intercalate (i.out.map showOut)} | tcpclosed={p.tcpClosed} inner=true h={i.hcalls} u={i.ucalls} m={i.mwcalls} content={toHex (if i.ucalls > 0 then i.content else [])} hsdone={p.hsDone}"
+      | none => some s!"ok  | tcpclosed={p.tcpClosed} inner=false h=0 u=0 m=0 content=- hsdone={p.hsDone}"
+    | _, _ => some "bad-op"
   | _ => none
 end NauyacaVerif.Drv.SrvD
